@@ -120,8 +120,8 @@ func (s *stream) put(event *Event) uint64 {
 		if !s.isAttached {
 			s.streamer.makeCharged(s)
 		}
+		verifhook.Point("stream.put.beforeSignal")
 		s.cond.Signal()
-		verifhook.Point("stream.put.signaled")
 	} else {
 		s.last.next = event
 		s.last = event
